@@ -955,6 +955,89 @@ theorem basis_file_roundtrip_sparse (lib : AsdfLib) (hl : AsdfFaithful lib) (nam
           obtain ⟨b', h1, h2, h3, h4⟩ := fits_basis_sparse_roundtrip b c g m htm hg h hnd hshape file hw
           simp [bind, Except.bind, hd, ht, Except.map, hw, h1, h2, h3, h4, hg]
 
+/-! ## chains of file round trips -/
+
+/-- **Chains of files, of any length** (what the harness does with A > B > C): a grid that went
+through any sequence of `write_grid` / `read_grid` pairs — any file names, any `fmt` arguments, any
+mixture of formats — is the grid that was written first (NumPy-scalar weights possibly as the Python
+number, once an asdf or FITS file was among them). -/
+theorem grid_file_chain (lib : AsdfLib) (hl : AsdfFaithful lib) (hops : List Hop) (g g' : Grid)
+    (h : g.Ok) (hc : gridChain lib hops g = .ok g') : g' = g ∨ g' = g.pyWeights := by
+  suffices H : ∀ (hops : List Hop) (x : Grid), (x = g ∨ x = g.pyWeights) →
+      gridChain lib hops x = .ok g' → g' = g ∨ g' = g.pyWeights from H hops g (Or.inl rfl) hc
+  intro hops
+  induction hops with
+  | nil =>
+    intro x hx hc
+    simp only [gridChain] at hc
+    injection hc with hc
+    exact hc ▸ hx
+  | cons hop r ih =>
+    intro x hx hc
+    obtain ⟨n, f⟩ := hop
+    have hxok : x.Ok := by rcases hx with rfl | rfl <;> exact h
+    simp only [gridChain, bind, Except.bind] at hc
+    cases hw : writeGridFile lib n f x with
+    | error e => rw [hw] at hc; cases hc
+    | ok c =>
+      rw [hw] at hc
+      obtain ⟨k, _, hread⟩ := (grid_file_roundtrip lib hl n f x hxok).2 c hw
+      simp only [hread] at hc
+      refine ih _ ?_ hc
+      by_cases hk : k = .pickle
+      · simpa [hk] using hx
+      · simp only [hk, if_false]
+        rcases hx with rfl | rfl
+        · exact Or.inr rfl
+        · exact Or.inr (pyWeights_idem g)
+
+example : (gridChain AsdfLib.observed [("a.pkl".toList, none), ("b.dat".toList, some "fits"), ("c.asdf".toList, none)]
+    ⟨.polar, .separated [⟨"f8", [2], [0, 1]⟩, ⟨"f8", [3], [0, 1, 3]⟩], .arr ⟨"f8", [], [2]⟩⟩).map
+      (fun g => (g.weights.isNpScalar, g.system, g.coords.size)) = .ok (false, .polar, 6) := by decide +kernel
+
+/-- **Chains of files for fields**, any length, any mixture of formats, any memory layout of the
+data at each hop. -/
+theorem field_file_chain (lib : AsdfLib) (hl : AsdfFaithful lib) (hops : List (Layout × Hop))
+    (f f' : Field) (ts : List Nat) (h : f.grid.Ok) (hnd : 0 < f.grid.coords.ndim)
+    (hshape : f.values.shape = ts ++ [f.grid.coords.size])
+    (hdata : f.values.data.length = prod f.values.shape)
+    (hc : fieldChain lib hops f = .ok f') :
+    f' = f ∨ f' = { f with grid := f.grid.pyWeights } := by
+  suffices H : ∀ (hops : List (Layout × Hop)) (x : Field),
+      (x = f ∨ x = { f with grid := f.grid.pyWeights }) →
+      fieldChain lib hops x = .ok f' → f' = f ∨ f' = { f with grid := f.grid.pyWeights } from
+    H hops f (Or.inl rfl) hc
+  intro hops
+  induction hops with
+  | nil =>
+    intro x hx hc
+    simp only [fieldChain] at hc
+    injection hc with hc
+    exact hc ▸ hx
+  | cons hop r ih =>
+    intro x hx hc
+    obtain ⟨l, n, fm⟩ := hop
+    have hinv : x.grid.Ok ∧ 0 < x.grid.coords.ndim ∧ x.values.shape = ts ++ [x.grid.coords.size] ∧
+        x.values.data.length = prod x.values.shape := by
+      rcases hx with rfl | rfl
+      · exact ⟨h, hnd, hshape, hdata⟩
+      · exact ⟨h, hnd, hshape, hdata⟩
+    obtain ⟨h1, h2, h3, h4⟩ := hinv
+    simp only [fieldChain, bind, Except.bind] at hc
+    cases hw : writeFieldFile lib l n fm x with
+    | error e => rw [hw] at hc; cases hc
+    | ok c =>
+      rw [hw] at hc
+      obtain ⟨k, _, hread⟩ := (field_file_roundtrip lib hl l n fm x ts h1 h2 h3 h4).2 c hw
+      simp only [hread] at hc
+      refine ih _ ?_ hc
+      by_cases hk : k = .asdf
+      · simp only [hk, if_true]
+        rcases hx with rfl | rfl
+        · exact Or.inr rfl
+        · right; simp [pyWeights_idem]
+      · simpa [hk] using hx
+
 /-! ## Old — the unrepaired read/write paths and their counterexamples
 
 Documentation of the defects that were found (D14, D19, D160, D161): statements about `…Old`
